@@ -60,7 +60,8 @@ Corollary compile_warrior_fuel cfg inp :
   exists lines meta, compile cfg lines meta = COutOfFuel.
 Proof.
   intros H. unfold compile_warrior in H.
-  destruct (front_end_ends cfg inp) as [toks [El [r [Er Hp]]]]. rewrite El, Er in H.
+  destruct (front_end_ends cfg inp) as [toks [El [r [Er Hp]]]]. rewrite El in H.
+  destruct (negb (counts_modelled toks None)); [discriminate H|]. rewrite Er in H.
   destruct r as [toks'|]; [|discriminate H].
   destruct (parse toks') as [[[lines meta]|]|] eqn:Ep; [|discriminate H|congruence].
   exists lines, meta. exact H.
